@@ -39,7 +39,7 @@ func RacePass(env *engine.Env, outFile string) error {
 		s := sha256.Sum256(b)
 		return hex.EncodeToString(s[:8])
 	}
-	docs := sharingConfigs(env)
+	docs := c12Docs(env)
 	iters := 2
 	if env.Thorough() {
 		iters = 6
@@ -49,6 +49,14 @@ func RacePass(env *engine.Env, outFile string) error {
 		c := ci.(C12Case)
 		if c.Mode == "racepass" {
 			return true
+		}
+		scIters := iters
+		if c.Config == c12Large(env) {
+			// under the race detector each of these builds takes tens of seconds: quick keeps two of the scenarios, once
+			if !env.Thorough() && !(c.Mode == "S1" && c.Formats[0] != c.Formats[1]) && !(c.Mode == "S2" && c.Formats[0] == "apk") {
+				return true
+			}
+			scIters = 1
 		}
 		res.Scenarios++
 		text := docs[c.Config].YAML()
@@ -62,7 +70,7 @@ func RacePass(env *engine.Env, outFile string) error {
 			}
 			base[i] = hash(&cfg, f)
 		}
-		for it := 0; it < iters; it++ {
+		for it := 0; it < scIters; it++ {
 			n := len(c.Formats)
 			cfgs := make([]*nfpm.Config, n)
 			if c.Mode == "S1" {
